@@ -1,0 +1,158 @@
+//go:build verif
+
+package pruning
+
+// Contracts for govc (/verif), property C30. Comment-only file: no executable code, not part of the default build.
+//
+// Abstract persister model (contract A of the design: a persister is a key-value store). The persisters are interfaces,
+// their content is not Go heap; it is modelled by GHOST CELLS: pcell(p, k) is an (uninterpreted) one-element slice chosen
+// per persister p and key content k; pcell(p,k)[0] == 1 means "p holds k", 0 means "p does not hold k"
+// (`assigns elems(pcell(p,k))` is a write of exactly that cell). Distinct persisters have distinct pid(), hence
+// distinct cells. The cache has the same device (ccell(c,k)[0] == 1: put and not removed since; a hit implies 1, the
+// cache may forget). Cacher.Clear is left without contract (it would write every cell): callers lose the heap there.
+
+/*@
+// pcell / pHolds / pid / ccell: ghost cells of the storage interfaces, declared with the Persister / Cacher /
+// BloomFilter contracts in storage/contracts_verif.go
+
+// idf is the identity on indexes; it gives the solvers a trigger that survives arithmetic normalisation of slice offsets
+spec fn idf(k int) int
+  axiom idf(k) == k
+
+struct persisterData
+  guarded_by RWMutex: persister, isClosed
+
+struct PruningStorer
+  guarded_by lock: activePersisters, persistersMapByEpoch, epochForPutOperation
+  invariant has-active: len(activePersisters) >= 1
+  invariant wired: !isNil(cacher)
+  invariant newest-open: activePersisters[0] != nil && !isNil(activePersisters[0].persister)
+  invariant open: forall k :: 0 <= k && k < len(activePersisters) ==> activePersisters[idf(k)] != nil && !isNil(activePersisters[idf(k)].persister)
+  invariant distinct: forall k, l :: 0 <= k && k < l && l < len(activePersisters) ==> pid(activePersisters[k].persister) != pid(activePersisters[l].persister)
+
+// ---- persisterData: every access of persister / isClosed under the embedded RWMutex ------------------------------
+func (pd *persisterData) getIsClosed() (r bool)
+  ensures reads-flag: r == pd.isClosed
+  ensures lock-released: !held(pd.RWMutex) && !heldR(pd.RWMutex)
+  assigns nothing
+
+func (pd *persisterData) setIsClosed(closed bool)
+  ensures sets-flag: pd.isClosed == closed
+  ensures lock-released: !held(pd.RWMutex) && !heldR(pd.RWMutex)
+  assigns pd.isClosed
+
+func (pd *persisterData) getPersister() (r storage.Persister)
+  ensures reads-persister: r == pd.persister
+  ensures lock-released: !held(pd.RWMutex) && !heldR(pd.RWMutex)
+  assigns nothing
+
+func (pd *persisterData) setPersisterAndIsClosed(persister storage.Persister, isClosed bool)
+  ensures sets-both: pd.persister == persister && pd.isClosed == isClosed
+  ensures lock-released: !held(pd.RWMutex) && !heldR(pd.RWMutex)
+  assigns pd.persister, pd.isClosed
+
+func (pd *persisterData) Close() (err error)
+  requires !isNil(pd.persister)
+  ensures marked-closed: pd.isClosed
+  assigns pd.isClosed
+
+// ---- the property -------------------------------------------------------------------------------------------------
+// C30: "After a key is removed, no read returns it from any active epoch."
+func (ps *PruningStorer) Remove(key []byte) (err error)
+  requires inv(ps)
+  ensures removed-from-cache: ccell(ps.cacher, str(key))[0] == 0
+  ensures removed-from-every-active-persister: err == nil ==>
+    (forall k :: 0 <= k && k < len(ps.activePersisters) ==> pcell(ps.activePersisters[k].persister, str(key))[0] == 0)
+  ensures lock-released: !held(ps.lock) && !heldR(ps.lock)
+
+loop 1
+  // an interface call with a frame inside the loop makes the engine havoc the whole heap at the loop head: restate what is kept
+  invariant -1 <= rangeindex && rangeindex < len(ps.activePersisters)
+  invariant heldR(ps.lock)
+  invariant str(key) == old(str(key))
+  invariant ps.activePersisters == old(ps.activePersisters) && ps.cacher == old(ps.cacher)
+  invariant forall k :: 0 <= k && k < len(ps.activePersisters) ==> ps.activePersisters[k] == old(ps.activePersisters[k])
+  invariant inv(ps)
+  invariant ccell(ps.cacher, str(key))[0] == 0
+  invariant rangeindex == -1 || err != nil
+  // instance of inv.open for the next element (helps the solvers: the code indexes with a wrapped rangeindex+1)
+  invariant rangeindex + 1 < len(ps.activePersisters) ==> (ps.activePersisters[idf(rangeindex + 1)] != nil && !isNil(ps.activePersisters[idf(rangeindex + 1)].persister))
+
+// C30: a value put is held by a persister of the storer (the newest active one, or the open one of the put-epoch).
+func (ps *PruningStorer) doPutInPersister(key []byte, data []byte, persister storage.Persister) (err error)
+  requires wired: !isNil(ps.cacher)
+  requires persister-non-nil: !isNil(persister)
+  ensures stored: err == nil ==> pHolds(persister, str(key))
+  assigns elems(pcell(persister, str(key))), elems(ccell(ps.cacher, str(key)))
+
+func (ps *PruningStorer) Put(key []byte, data []byte) (err error)
+  requires inv(ps)
+  requires map-values-usable: forall e uint32 :: ps.persistersMapByEpoch[e] != nil && !isNil(ps.persistersMapByEpoch[e].persister)
+  ensures stored-in-newest-unless-put-epoch-open: err == nil ==>
+    (pHolds(ps.activePersisters[0].persister, str(key)) || (ps.pruningEnabled && pHolds(ps.persistersMapByEpoch[ps.epochForPutOperation].persister, str(key))))
+  ensures lock-released: !held(ps.lock) && !heldR(ps.lock)
+
+// C30: a key that is neither cached nor held by an active persister is reported as not found; a reported key is
+// cached or held by an active persister.
+func (ps *PruningStorer) Has(key []byte) (err error)
+  trusted    // `defer ps.lock.RUnlock()` after an early return = conditional defer: outside the engine's subset
+  requires inv(ps)
+  ensures absent-everywhere-is-not-found: (ccell(ps.cacher, str(key))[0] == 0 &&
+    (forall k :: 0 <= k && k < len(ps.activePersisters) ==> pcell(ps.activePersisters[k].persister, str(key))[0] == 0)) ==> err != nil
+  ensures found-is-cached-or-held: err == nil ==> (ccell(ps.cacher, str(key))[0] == 1 ||
+    (exists k :: 0 <= k && k < len(ps.activePersisters) && pHolds(ps.activePersisters[k].persister, str(key))))
+  ensures lock-released: !held(ps.lock) && !heldR(ps.lock)
+  assigns nothing
+
+// "After a key is removed, no read returns it from any active epoch" (through Has), over the contracts of Remove and Has.
+lemma removed-key-is-not-found
+  vars ps *PruningStorer, key []byte
+  hyp  inv(ps)
+  call err = ps.Remove(key)
+  call e2 = ps.Has(key)
+  concl not-found: err == nil ==> e2 != nil
+
+// C30 (active window): closing keeps exactly the newest numOfActivePersisters persisters active, in order; everything
+// happens under the write lock; the persisters handed to Close are open ones.
+func (o clean.OldDataCleanerProvider) ShouldClean() (r bool)
+  assigns nothing
+
+func (ps *PruningStorer) closePersisters(epoch uint32) (err error)
+  requires inv(ps) && ps.persistersMapByEpoch != nil && !isNil(ps.oldDataCleanerProvider)
+  requires active-list-fits-uint32: len(ps.activePersisters) < 4294967296
+  requires existing-backing-array: allocated(ps.activePersisters)   // representation fact: the stored slice does not point to an object allocated later
+  ensures window-shrinks-to-newest: old(len(ps.activePersisters)) > ps.numOfActivePersisters ==> len(ps.activePersisters) == ps.numOfActivePersisters
+  ensures window-kept-when-small: old(len(ps.activePersisters)) <= ps.numOfActivePersisters ==> ps.activePersisters == old(ps.activePersisters)
+  ensures newest-first-order-kept: base(ps.activePersisters) == old(base(ps.activePersisters)) && off(ps.activePersisters) == old(off(ps.activePersisters))
+    && (forall k :: 0 <= k && k < len(ps.activePersisters) ==> ps.activePersisters[k] == old(ps.activePersisters[k]))
+  ensures lock-released: !held(ps.lock) && !heldR(ps.lock)
+
+loop 1
+  invariant held(ps.lock)
+  invariant (idx == ps.numOfActivePersisters && ps.activePersisters == old(ps.activePersisters))
+    || (idx == ps.numOfActivePersisters + 1 && len(ps.activePersisters) == ps.numOfActivePersisters && ps.numOfActivePersisters < old(len(ps.activePersisters))
+        && base(ps.activePersisters) == old(base(ps.activePersisters)) && off(ps.activePersisters) == old(off(ps.activePersisters)))
+  invariant forall k :: 0 <= k && k < old(len(ps.activePersisters)) ==> old(ps.activePersisters)[k] == old(ps.activePersisters[k])
+  invariant fresh(persistersToClose)
+  invariant forall j :: 0 <= j && j < len(persistersToClose) ==> persistersToClose[idf(j)] != nil && !isNil(persistersToClose[idf(j)].persister)
+
+loop 2
+  invariant held(ps.lock)
+
+loop 3
+  invariant -1 <= rangeindex && rangeindex < len(persistersToClose)
+  invariant !held(ps.lock) && !heldR(ps.lock)
+  // `err.Error()` in the loop body has no contract: the engine havocs the whole heap at this loop head, so the window facts are restated
+  invariant old(len(ps.activePersisters)) > ps.numOfActivePersisters ==> len(ps.activePersisters) == ps.numOfActivePersisters
+  invariant old(len(ps.activePersisters)) <= ps.numOfActivePersisters ==> ps.activePersisters == old(ps.activePersisters)
+  invariant base(ps.activePersisters) == old(base(ps.activePersisters)) && off(ps.activePersisters) == old(off(ps.activePersisters))
+    && (forall k :: 0 <= k && k < len(ps.activePersisters) ==> ps.activePersisters[k] == old(ps.activePersisters[k]))
+  invariant ps.numOfActivePersisters == old(ps.numOfActivePersisters)
+  invariant forall j :: 0 <= j && j < len(persistersToClose) ==> persistersToClose[idf(j)] != nil && !isNil(persistersToClose[idf(j)].persister)
+  invariant rangeindex + 1 < len(persistersToClose) ==> (persistersToClose[idf(rangeindex + 1)] != nil && !isNil(persistersToClose[idf(rangeindex + 1)].persister))
+
+func (ps *PruningStorer) SetEpochForPutOperation(epoch uint32)
+  ensures set: ps.epochForPutOperation == epoch
+  ensures lock-released: !held(ps.lock) && !heldR(ps.lock)
+  assigns ps.epochForPutOperation
+@*/
